@@ -311,7 +311,13 @@ def concrete_text(ex, kinds, text, names):
         ex.check(not ref_ok, "no completion of a prefix rejected by the parser tables is generated by the documented grammar")
     if real_ok and ref_ok:
         want = denote(tree)
-        got = graph_paths(expr._as_graphs())
+        try:
+            graphs = expr._as_graphs()
+        except ValueError:
+            # graph construction is what compile_str does first
+            ex.check(False, "an accepted string compiles to observer graphs")
+            return real_ok
+        got = graph_paths(graphs)
         ex.check(got == want, "parse(text) denotes the documented set of observed paths and notify flags")
         again = parsing.parse(text)
         ex.check(again == expr and hash(again) == hash(expr), "parsing the same string twice gives equal patterns")
